@@ -127,3 +127,28 @@ PROPS["C18"] = dict(
     level_note="Trusted: the validity predicate in harness/c18_gridgen.cpp; sanitizers for out-of-bounds detection.",
     assumptions=["R0 < Rmax (the constructor asserts it; the property quantifies over R0<Rmax)"],
 )
+
+PROPS["C03"] = dict(
+    harness="c03_operator", flavour="rel",
+    quick=dict(workers=8, cases=3000, min_nontrivial=300),
+    thorough=dict(workers=16, cases=300000, min_nontrivial=3000, budget_s=3000),
+    rule="Admissible grids nr 4..41 x ntheta 4..48 (even; plus ~2.5% grids with 10k-25k nodes), radii uniform/geometric/"
+         "random-ratio/midpoint-nested with R0/Rmax 1e-8..0.5, angles uniform or non-uniform with antipodal partners, "
+         "automatic or explicit split covering 0..nr circles; four geometries with parameters in their valid ranges "
+         "(Shafranov 2*delta<1-kappa), seven coefficient profiles, both boundary modes, coarsening chains of depth 0..3 "
+         "built as setup() does, threads 1,2,3,5,16, vectors u,f of six kinds (normal, smooth, unit, spikes, huge dynamic "
+         "range, constant). Every case evaluates give x {4 cache combinations} and take on every level against A_ref "
+         "(long double gather stencil), compares coarse caches with fresh ones, and (small grids, 1 in 3) probes the full "
+         "matrices of give and take entrywise. Non-trivial: non-circular geometry or non-uniform grid, both sections "
+         "non-empty. Distinct: (dims, geometry, profile, BC, #circles, depth, threads).",
+    technique="property-based testing (rapidcheck); differential between five implementations and an independent long double reference operator, entrywise matrix probing",
+    level_text="Each generated grid/geometry/profile/vector case runs all five residual implementations on every level of a "
+               "harness-built hierarchy and compares them row by row with an independent reference operator under a "
+               "per-row rounding bound c*eps*(sum|a_ij||u_j| + |a_ii| max|u| + |f_i|); Dirichlet rows must be exact; "
+               "on small grids the complete matrices are probed and compared entrywise with the documented stencil. "
+               "Exploration over generated inputs.",
+    level_note="Trusted: the reference operator harness/common/refop.h (its mixed-derivative corner weights follow the "
+               "documented stencil; its consistency with the PDE is checked separately by C02/C05), the constant c=256 "
+               "(observed maxima in the evidence), the DomainGeometry/DensityProfile virtual functions (validated by C19).",
+    assumptions=["Shafranov parameters satisfy 2*delta < 0.9*(1-kappa) so that det DF stays away from zero"],
+)
